@@ -60,6 +60,42 @@ fn conv_sets() -> Vec<ConvSet> {
         Some(r) => list.push(("bundled with minutes renamed", r)),
         None => ctx().note("the converter with renamed minutes could not be built; it is not part of this run"),
     }
+    // a converter whose time scale is based on the minute (ratios 1, 60, 1440, 10080) instead of the second
+    let minute_based = toml::from_str::<UnitsFile>(
+        r#"default_system = "metric"
+[[quantity]]
+quantity = "volume"
+best = ["l"]
+units = [ { names = ["litre"], symbols = ["l"], ratio = 1 } ]
+[[quantity]]
+quantity = "mass"
+best = ["g"]
+units = [ { names = ["gram"], symbols = ["g"], ratio = 1 } ]
+[[quantity]]
+quantity = "length"
+best = ["cm"]
+units = [ { names = ["centimetre"], symbols = ["cm"], ratio = 1 } ]
+[[quantity]]
+quantity = "temperature"
+best = ["C"]
+units = [ { names = ["celsius"], symbols = ["C"], ratio = 1, difference = 273.15 } ]
+[[quantity]]
+quantity = "time"
+best = ["min", "h", "d"]
+units = [
+ { names = ["minute", "minutes"], symbols = ["min"], ratio = 1 },
+ { names = ["hour", "hours"], symbols = ["h"], ratio = 60 },
+ { names = ["day", "days"], symbols = ["d"], ratio = 1440 },
+ { names = ["week", "weeks"], symbols = ["wk"], ratio = 10080 },
+]
+"#,
+    )
+        .ok()
+        .and_then(|f| ConverterBuilder::new().with_units_file(f).ok()?.finish().ok());
+    match minute_based {
+        Some(r) => list.push(("minute-based time units", r)),
+        None => ctx().note("the converter with minute-based time units could not be built; it is not part of this run"),
+    }
     for (name, conv) in list {
         let mut time_units = Vec::new();
         if name == "bundled with minutes renamed" {
@@ -72,13 +108,16 @@ fn conv_sets() -> Vec<ConvSet> {
                 time_units.push((k.to_string(), s as u128));
             }
         } else {
+            // seconds per unit, relative to the converter's own minute
+            let minute = ["min", "minute", "minutes", "m"].iter().find_map(|k| conv.find_unit(k)).map(|u| u.ratio).unwrap_or(60.0);
             for u in conv.all_units() {
                 if u.physical_quantity == PhysicalQuantity::Time {
-                    let secs = match u.ratio {
+                    let secs = match u.ratio / minute * 60.0 {
                         r if r == 1.0 => 1,
                         r if r == 60.0 => 60,
                         r if r == 3600.0 => 3600,
                         r if r == 86400.0 => 86400,
+                        r if r == 604800.0 => 604800,
                         _ => continue,
                     };
                     for k in u.names.iter().chain(&u.symbols).chain(&u.aliases) {
@@ -260,10 +299,33 @@ fn other_cases() -> Vec<Case> {
 }
 
 fn source(key: &str, text: &str, spelling: u8) -> String {
+    source_with_alias(key, key, text, spelling, 0)
+}
+
+/// another spelling of the same standard key with a valid value, if the key has one
+fn alias_entry(key: &str) -> Option<&'static str> {
+    Some(match key {
+        "tags" => "tag: x",
+        "servings" => "serves: 3",
+        "time" => "duration: 10",
+        "prep time" => "prep_time: 5",
+        "cook time" => "cook_time: 5",
+        _ => return None,
+    })
+}
+
+/// `alias_pos`: 0 = no other entry, 1 = the alias spelling of `std_key` (valid value) before the entry, 2 = after it
+fn source_with_alias(std_key: &str, key: &str, text: &str, spelling: u8, alias_pos: u8) -> String {
+    let alias = if alias_pos == 0 { None } else { alias_entry(std_key) };
+    let (before, after) = match (alias, alias_pos) {
+        (Some(a), 1) => (format!("{a}\n"), String::new()),
+        (Some(a), 2) => (String::new(), format!("{a}\n")),
+        _ => (String::new(), String::new()),
+    };
     match spelling {
         0 => format!(">> {key}: {text}\nstep\n"),
-        1 => format!("---\n{key}: \"{}\"\n---\nstep\n", text.replace('\\', "\\\\").replace('"', "\\\"")),
-        _ => format!("---\n{key}: {text}\n---\nstep\n"),
+        1 => format!("---\n{before}{key}: \"{}\"\n{after}---\nstep\n", text.replace('\\', "\\\\").replace('"', "\\\"")),
+        _ => format!("---\n{before}{key}: {text}\n{after}---\nstep\n"),
     }
 }
 
@@ -275,12 +337,25 @@ fn n_errors(r: &cooklang::RecipeResult) -> usize {
 }
 
 fn eval_case(parser: &CooklangParser, cname: &str, c: &Case) -> Option<Violation> {
-    let src = source(c.key, &c.text, c.spelling);
-    let baseline_src = source("zz", &c.text, c.spelling);
+    // front-matter entries are also checked next to another spelling of the same standard key
+    for alias_pos in 0..3u8 {
+        if alias_pos > 0 && (c.spelling == 0 || alias_entry(c.key).is_none()) {
+            break;
+        }
+        if let Some(v) = eval_case_at(parser, cname, c, alias_pos) {
+            return Some(v);
+        }
+    }
+    None
+}
+
+fn eval_case_at(parser: &CooklangParser, cname: &str, c: &Case, alias_pos: u8) -> Option<Violation> {
+    let src = source_with_alias(c.key, c.key, &c.text, c.spelling, alias_pos);
+    let baseline_src = source_with_alias(c.key, "zz", &c.text, c.spelling, alias_pos);
     let conv = parser.converter();
     let r = parser.parse(&src);
     let b = parser.parse(&baseline_src);
-    let case = json!({"kind": "form", "key": c.key, "text": c.text, "spelling": c.spelling, "converter": cname, "source": src});
+    let case = json!({"kind": "form", "key": c.key, "text": c.text, "spelling": c.spelling, "converter": cname, "source": src, "alias_pos": alias_pos});
     macro_rules! fail {
         ($class:expr, $($arg:tt)*) => {
             return Some(Violation::new($class, format!("{src:?} with the {cname} converter: {}", format!($($arg)*)), case))
@@ -316,7 +391,8 @@ fn eval_case(parser: &CooklangParser, cname: &str, c: &Case) -> Option<Violation
         }
         "servings" => {
             let a = md.servings();
-            if a.as_deref() != o.servings() {
+            // (which of two spellings feeds the stored servings is not defined by the property: not compared then)
+            if alias_pos == 0 && a.as_deref() != o.servings() {
                 fail!("recipe servings differ from the metadata accessor", "accessor {a:?}, recipe.servings() {:?}", o.servings());
             }
             a.map(Expect::Servings)
@@ -420,7 +496,7 @@ pub fn replay(case: &J) -> Vec<Violation> {
 
 pub fn run(tier: Tier) {
     let c = ctx();
-    c.set_rule("complete product of documented forms x boundary values (0, 1, 2, 59, 60, 90, 1439, 71582788, 71582789, 2^32-1, 2^32, 99999999999) x every key of every time unit of each converter x {time, prep time, cook time} x spellings (`>>`, quoted front matter, YAML number) x converters {bundled, empty, bundled+spanish}; servings / tags / author / source / locale forms of the documentation with near misses; oracle = independent exact computation of the rounded total (u128 half-seconds), accept => equal value and no extra warning, reject => one more warning than the same text under a non-standard key and nothing from the accessor; plus, for every string of <= n symbols over the metadata alphabet under every standard key and spelling, warning <=> accessor returns nothing; non-trivial = form accepted or rejected as predicted with a value under the key; distinct = distinct (key, text, spelling, converter)");
+    c.set_rule("complete product of documented forms x boundary values (0, 1, 2, 59, 60, 90, 1439, 71582788, 71582789, 2^32-1, 2^32, 99999999999) x every key of every time unit of each converter x {time, prep time, cook time} x spellings (`>>`, quoted front matter, YAML number) x converters {bundled, empty, bundled+spanish, bundled with minutes renamed, minute-based time units}; front-matter entries also next to another spelling of the same standard key (before and after); servings / tags / author / source / locale forms of the documentation with near misses; oracle = independent exact computation of the rounded total (u128 half-seconds), accept => equal value and no extra warning, reject => one more warning than the same text under a non-standard key and nothing from the accessor; plus, for every string of <= n symbols over the metadata alphabet under every standard key and spelling, warning <=> accessor returns nothing; non-trivial = form accepted or rejected as predicted with a value under the key; distinct = distinct (key, text, spelling, converter)");
     let sets = Arc::new(conv_sets());
     let others = Arc::new(other_cases());
     for (si, set) in sets.iter().enumerate() {
